@@ -18,7 +18,9 @@ TWINS = [("point-point", "auto r = p - p2;"), ("point+quantity", "auto r = p + k
 
 
 def run(ctx):
-    ctx.rule = ("Point units (Kelvins, Celsius, Fahrenheit, prefixed forms and seeded generated units with rational scale and rational origin) are read "
+    ctx.rule = ("Layer A: PointPipeline.tla models QuantityPoint::in<NewRep>(NewUnit) step by step (IntermediateRep, rep_cast, mixed-unit subtraction of the "
+                "origin displacement in the common unit, conversion N/D, final cast) on the scaled machine for every pair of 6 reps x 7 point units x every "
+                "value: the result is the exact affine image with no UB/wrap whenever the intermediates fit the calculation rep.  Layer B/C: point units (Kelvins, Celsius, Fahrenheit, prefixed forms and seeded generated units with rational scale and rational origin) are read "
                 "out of the compiled types; TLC (PointBig.tla, BigInt rationals) emits for every ordered pair the affine contract x -> (x*A + B)/C and "
                 "the integer position grid; a comparator sweeps dense windows around 0 and the origins plus boundary/random values through "
                 "coerce_in/coerce_as/in/as<Rep>, the six comparisons, point - point, point +- quantity, quantity + point; every disagreement and a sample "
@@ -27,6 +29,12 @@ def run(ctx):
                 "values at the origins.")
     ctx.assumptions += ["integral reps are i32 (catalogue temperature units) and i64 with value windows that keep every intermediate representable; "
                         "non-integer exact results are outside the claim", "unit definitions are inputs"]
+    # Layer A: the conversion pipeline of QuantityPoint::in<NewRep>(NewUnit) on the scaled machine
+    a = ctx.tlc("MC_PointPipeline.tla", timeout=3000, name="layerA point pipeline", allow_violation=True, xmx="8g")
+    if a.violated:
+        raise core.ToolError("Layer A: invariant %s of PointPipeline.tla fails\n%s" % (a.violated, "\n".join(a.out.splitlines()[-30:])))
+    ctx.layers["A"] = {"module": "PointPipeline.tla", "distinct": a.distinct, "exhaustive": True,
+                       "what": "IntermediateRep / displacement / conversion steps over 6 scaled reps x 7 point units x all values: exact affine image whenever the intermediates fit"}
     rnd = random.Random(ctx.seed)
     pool = [("Kelvins", "Kelvins"), ("Celsius", "Celsius"), ("Fahrenheit", "Fahrenheit"), ("mK", "Milli<Kelvins>"), ("cC", "Centi<Celsius>"), ("kK", "Kilo<Kelvins>"),
             ("mF", "Milli<Fahrenheit>"), ("mC", "Milli<Celsius>")]
